@@ -298,15 +298,24 @@ func planInlines(pkgs []*packages.Package) *inlinePlan {
 					case *ast.CompositeLit:
 						walkAll(x.Elts, cond)
 					case *ast.CallExpr:
+						// what is evaluated before the call's own operands must be pure; the operands
+						// themselves move with the call
+						impureBefore := impure
+						c, mode := resolve(x)
+						n := nres(x)
+						if c != nil && !cond && !impureBefore && (n == 1 || x == whole) {
+							impure = false
+						}
 						if sel, ok := x.Fun.(*ast.SelectorExpr); ok {
 							walk(sel.X, cond)
 						} else if _, ok := x.Fun.(*ast.Ident); !ok {
 							walk(x.Fun, cond)
 						}
 						walkAll(x.Args, cond)
-						c, mode := resolve(x)
-						n := nres(x)
-						okHere := c != nil && !cond && !impure && (n == 1 || x == whole)
+						okHere := c != nil && !cond && !impureBefore && (n == 1 || x == whole)
+						if okHere {
+							impure = impureBefore
+						}
 						if okHere {
 							off := fset.Position(x.Pos()).Offset
 							if pl.sites[fname] == nil {
